@@ -449,6 +449,32 @@ def fam_styles(configs=None):
   return Family("F-styles", prod.n, dec, check_rt, timeout=30, note="style grid x 4 configurations")
 
 
+ODD_VALUES = [
+  # values that the model accepts and that sit at the edge of what the IMSC syntax can express
+  ("span", "TextDecoration", ["td", None, None, None]),                 # specifies none of the three decorations
+  ("p", "FontFamily", ["ff", ["a\\b"]]), ("p", "FontFamily", ["ff", ["abc\\"]]), ("p", "FontFamily", ["ff", ['say "hi"']]),
+  ("p", "FontFamily", ["ff", ["it's"]]), ("p", "FontFamily", ["ff", ["a,b", "c"]]), ("p", "FontFamily", ["ff", [" lead"]]),
+  ("span", "Color", ["C", 0, 0, 0, 0]), ("region", "Opacity", 0.0), ("region", "Opacity", 0.5),
+  # numbers that the g presentation type prints in exponent notation, which TTML does not have
+  ("p", "FontSize", L(0.00001, "em")), ("p", "LineHeight", L(0.00002, "c")), ("region", "Origin", ["org", L(0.00001, "%"), L(5, "%")]),
+  ("region", "Extent", ["ext", L(1234567, "px"), L(2000000, "px")]),
+]
+
+
+def fam_odd_values():
+  prod = Product([range(len(ODD_VALUES)), CONFIGS_SMALL[:2]])
+
+  def dec(i):
+    vi, c = prod.decode(i)
+    where, prop, val = copy.deepcopy(ODD_VALUES[vi])
+    spec = docgen.chain_doc({}, True)
+    pnode = spec["body"]["c"][0]["c"][0]
+    tgt = {"region": spec["regions"][0], "p": pnode, "span": pnode["c"][0]}[where]
+    tgt["st"] = {prop: val}
+    return {"spec": spec, "config": c, "key": f"odd#{i}"}
+  return Family("F-odd-values", prod.n, dec, check_rt, timeout=30, note="style values at the edge of what the IMSC syntax can express")
+
+
 def fam_kinds():
   specs = []
   for pat in c01.RUBY_PATTERNS:
@@ -575,4 +601,4 @@ def fam_params():
 
 def plan(tier, seed):
   # thorough: the style grid under every writer configuration (every syntax x every frame rate)
-  return [fam_styles(CONFIGS_ALL if tier == "thorough" else None), fam_kinds(), fam_times(tier), fam_params()]
+  return [fam_styles(CONFIGS_ALL if tier == "thorough" else None), fam_kinds(), fam_times(tier), fam_params(), fam_odd_values()]
